@@ -1033,3 +1033,169 @@ def translate_objects(path):
 
 if __name__ == '__main__' and len(sys.argv) == 2:
     print(translate_objects(sys.argv[1]))
+
+
+# =====================================================================================================================
+# Third kernel (round 3): ProgramEntry._transform_linspace_commands (qupulse/hardware/awgs/base.py), a loop that mutates
+# the elements of its argument list in place.  Accepted shape (anything else: Unsupported):
+#
+#     NAME = [ChannelTransformation(amplitude, offset, trafo)
+#             for ch, trafo, amplitude, offset in zip(self._channels, self._voltage_transformations, self._amplitudes, self._offsets)
+#             if ch is not None]
+#     for command in command_list:
+#         if / elif isinstance(command, Cls | (Cls, ..)): ... else: ...        with the statements
+#             continue | T = NAME[command.channel] | if T.voltage_transformation: ... | raise RuntimeError/NotImplementedError(..)
+#             command.value /= T.amplitude | command.value -= T.offset | command.value = float(T.voltage_transformation(command.value))
+#     return command_list
+#
+# Output: gtrafo record, gen_trafos (the comprehension), gen_transform_cmd (one element, the mutated command is rebuilt),
+# gen_transform_commands (the loop: first failing element decides the exception).  `x /= a` on floats raises
+# ZeroDivisionError for a == 0 (-> Err EDiv).
+
+class TransformTranslator:
+    ZIP = ['_channels', '_voltage_transformations', '_amplitudes', '_offsets']
+
+    def __init__(self, tree, aliases):
+        self.aliases = aliases           # local class name -> command dataclass name (Set as LSPSet)
+        self.cmds = {c: f for c, f in CMD_CLASSES}
+        cl = [n for n in tree.body if isinstance(n, ast.ClassDef) and n.name == 'ProgramEntry']
+        if len(cl) != 1:
+            raise Unsupported('ProgramEntry not found')
+        ms = [n for n in cl[0].body if isinstance(n, ast.FunctionDef) and n.name == '_transform_linspace_commands']
+        if len(ms) != 1:
+            raise Unsupported('_transform_linspace_commands not found')
+        self.m = ms[0]
+        ct = [n for n in tree.body if isinstance(n, ast.ClassDef) and n.name == 'ChannelTransformation']
+        if len(ct) != 1 or [(s.target.id, _ann(s.annotation)) for s in ct[0].body if isinstance(s, ast.AnnAssign)] != \
+                [('amplitude', 'float'), ('offset', 'float'), ('voltage_transformation', 'Optional[callable]')]:
+            raise Unsupported('ChannelTransformation fields')
+        for node in tree.body:
+            if isinstance(node, ast.ImportFrom) and node.module == 'qupulse.program.linspace':
+                for a in node.names:
+                    if (a.asname or a.name) in aliases and aliases[a.asname or a.name] != a.name:
+                        raise Unsupported('import alias %s' % (a.asname or a.name))
+                got = {(a.asname or a.name) for a in node.names}
+                if not set(aliases) <= got:
+                    raise Unsupported('command classes are not imported from qupulse.program.linspace')
+
+    def cls(self, e):
+        names = [e] if isinstance(e, ast.Name) else list(e.elts) if isinstance(e, ast.Tuple) else None
+        if not names or not all(isinstance(n, ast.Name) and n.id in self.aliases for n in names):
+            raise Unsupported('isinstance classes')
+        return [self.aliases[n.id] for n in names]
+
+    def translate(self):
+        a = self.m.args
+        if [x.arg for x in a.args] != ['self', 'command_list'] or a.vararg or a.kwarg or a.kwonlyargs or a.defaults:
+            raise Unsupported('signature')
+        body = [s for s in self.m.body if not (isinstance(s, ast.Expr) and isinstance(s.value, ast.Constant))]
+        if len(body) != 3:
+            raise Unsupported('expected: comprehension, loop, return')
+        comp, loop, ret = body
+        # 1. the comprehension
+        ok = (isinstance(comp, ast.Assign) and len(comp.targets) == 1 and isinstance(comp.targets[0], ast.Name)
+              and isinstance(comp.value, ast.ListComp) and len(comp.value.generators) == 1)
+        if not ok:
+            raise Unsupported('first statement must be the transformation list comprehension')
+        self.tname = comp.targets[0].id
+        g = comp.value.generators[0]
+        if ast.unparse(g.target) != '(ch, trafo, amplitude, offset)' or \
+                ast.unparse(g.iter) != 'zip(%s)' % ', '.join('self.' + z for z in self.ZIP) or \
+                [ast.unparse(i) for i in g.ifs] != ['ch is not None'] or \
+                ast.unparse(comp.value.elt) != 'ChannelTransformation(amplitude, offset, trafo)':
+            raise Unsupported('comprehension shape: ' + ast.unparse(comp.value)[:120])
+        trafos = ('Record gtrafo := mkGtrafo { gt_amplitude : Q; gt_offset : Q; gt_voltage_transformation : option (Q -> Q) }.\n\n'
+                  'Fixpoint gen_trafos (l1 : list (option N)) (l2 : list (option (Q -> Q))) (l3 l4 : list Q) {struct l1} : list gtrafo :=\n'
+                  "match l1, l2, l3, l4 with\n| ch :: l1', trafo :: l2', amplitude :: l3', offset :: l4' =>\n"
+                  "if is_some ch then mkGtrafo amplitude offset trafo :: gen_trafos l1' l2' l3' l4' else gen_trafos l1' l2' l3' l4'\n"
+                  '| _, _, _, _ => []\nend.')
+        # 2. the loop
+        if not (isinstance(loop, ast.For) and isinstance(loop.target, ast.Name) and loop.target.id == 'command'
+                and isinstance(loop.iter, ast.Name) and loop.iter.id == 'command_list' and not loop.orelse):
+            raise Unsupported('loop header')
+        if not (isinstance(ret, ast.Return) and isinstance(ret.value, ast.Name) and ret.value.id == 'command_list'):
+            raise Unsupported('return')
+        elem = self.block(loop.body, None, {})
+        cmd = ('Definition gen_transform_cmd (%s : list gtrafo) (command : gcmd) : res gcmd :=\n%s.' % (self.tname, elem))
+        lp = ('Fixpoint gen_transform_commands (%s : list gtrafo) (command_list : list gcmd) : res (list gcmd) :=\n'
+              'match command_list with\n| [] => Ok []\n| command :: rest =>\n'
+              'match gen_transform_cmd %s command with\n| Err e => Err e\n| Ok command =>\n'
+              'match gen_transform_commands %s rest with\n| Err e => Err e\n| Ok rest => Ok (command :: rest)\nend\nend\nend.'
+              % (self.tname, self.tname, self.tname))
+        return '\n\n'.join([trafos, cmd, lp])
+
+    def done(self, narrowed, fields):
+        """the (possibly mutated) element"""
+        if narrowed is None:
+            return 'Ok command'
+        return 'Ok (G%s %s)' % (narrowed, ' '.join(fields[f] for f, _, t in self.cmds[narrowed] if t is not None))
+
+    def block(self, stmts, narrowed, fields, locs=()):
+        if not stmts:
+            return self.done(narrowed, fields)
+        s, rest = stmts[0], stmts[1:]
+        if isinstance(s, ast.Expr) and isinstance(s.value, ast.Constant) and isinstance(s.value.value, str):
+            return self.block(rest, narrowed, fields, locs)
+        if isinstance(s, ast.Continue):
+            return self.done(narrowed, fields)
+        if isinstance(s, ast.Raise):
+            if isinstance(s.exc, ast.Call) and isinstance(s.exc.func, ast.Name) and s.exc.func.id in ('RuntimeError', 'NotImplementedError'):
+                return 'Err ' + {'RuntimeError': 'ERuntime', 'NotImplementedError': 'ENotImpl'}[s.exc.func.id]
+            raise Unsupported('raise')
+        if isinstance(s, ast.If):
+            t = s.test
+            if isinstance(t, ast.Call) and isinstance(t.func, ast.Name) and t.func.id == 'isinstance' and len(t.args) == 2 \
+                    and isinstance(t.args[0], ast.Name) and t.args[0].id == 'command':
+                if narrowed is not None or rest:
+                    raise Unsupported('isinstance chain must be the whole loop body')
+                arms = []
+                for c in self.cls(t.args[1]):
+                    fl = {f: 'command_%s' % f for f, _, ft in self.cmds[c] if ft is not None}
+                    arms.append('| G%s %s =>\n%s' % (c, ' '.join(fl.values()), self.block(s.body, c, fl, locs)))
+                return 'match command with\n%s\n| _ =>\n%s\nend' % ('\n'.join(arms), self.block(s.orelse, None, {}, locs))
+            # if T.voltage_transformation:
+            if isinstance(t, ast.Attribute) and isinstance(t.value, ast.Name) and t.value.id in locs and t.attr == 'voltage_transformation':
+                yes = self.block(s.body + rest, narrowed, fields, locs + (('vt', t.value.id),))
+                no = self.block(s.orelse + rest, narrowed, fields, locs)
+                return 'match gt_voltage_transformation %s with\n| Some %s_vt =>\n%s\n| None =>\n%s\nend' % (t.value.id, t.value.id, yes, no)
+            raise Unsupported('if ' + ast.unparse(t)[:60])
+        if isinstance(s, ast.Assign) and len(s.targets) == 1 and isinstance(s.targets[0], ast.Name):
+            # T = NAME[command.channel]
+            v = s.value
+            if isinstance(v, ast.Subscript) and isinstance(v.value, ast.Name) and v.value.id == self.tname \
+                    and ast.unparse(v.slice) == 'command.channel' and narrowed and 'channel' in fields:
+                n = s.targets[0].id
+                return 'match nth_error %s %s with\n| None => Err EIndex\n| Some %s =>\n%s\nend' % (
+                    self.tname, fields['channel'], n, self.block(rest, narrowed, fields, locs + (n,)))
+            raise Unsupported('assignment ' + ast.unparse(s)[:60])
+        if narrowed and 'value' in fields:
+            def trafo_attr(e, attr):
+                return isinstance(e, ast.Attribute) and e.attr == attr and isinstance(e.value, ast.Name) and e.value.id in locs
+            if isinstance(s, ast.AugAssign) and ast.unparse(s.target) == 'command.value':
+                if isinstance(s.op, ast.Div) and trafo_attr(s.value, 'amplitude'):
+                    a = '(gt_amplitude %s)' % s.value.value.id
+                    return 'if Qeq_bool %s 0 then Err EDiv else\n%s' % (
+                        a, self.block(rest, narrowed, dict(fields, value='(%s / %s)%%Q' % (fields['value'], a)), locs))
+                if isinstance(s.op, ast.Sub) and trafo_attr(s.value, 'offset'):
+                    o = '(gt_offset %s)' % s.value.value.id
+                    return self.block(rest, narrowed, dict(fields, value='(%s - %s)%%Q' % (fields['value'], o)), locs)
+            if isinstance(s, ast.Assign) and len(s.targets) == 1 and ast.unparse(s.targets[0]) == 'command.value':
+                v = s.value
+                if isinstance(v, ast.Call) and isinstance(v.func, ast.Name) and v.func.id == 'float' and len(v.args) == 1 \
+                        and isinstance(v.args[0], ast.Call) and trafo_attr(v.args[0].func, 'voltage_transformation') \
+                        and [ast.unparse(x) for x in v.args[0].args] == ['command.value'] and not v.args[0].keywords \
+                        and ('vt', v.args[0].func.value.id) in locs:
+                    return self.block(rest, narrowed, dict(fields, value='(%s_vt %s)' % (v.args[0].func.value.id, fields['value'])), locs)
+        raise Unsupported('statement ' + ast.unparse(s)[:80])
+
+
+def translate_transform(path):
+    with open(path) as fh:
+        tree = ast.parse(fh.read())
+    aliases = {'Increment': 'Increment', 'LSPSet': 'Set', 'LoopLabel': 'LoopLabel', 'LoopJmp': 'LoopJmp', 'Wait': 'Wait', 'Play': 'Play'}
+    parts = ['(* GENERATED by /verif/translate/py2gallina_c17.py (TransformTranslator) from %s: '
+             'ProgramEntry._transform_linspace_commands -- do not edit *)' % path,
+             'From Coq Require Import ZArith QArith List Bool.',
+             'Require Import QV.C17.Model QV.C17.GenLib QV.C17.Gen_linspace_obj.', 'Import ListNotations.', '',
+             TransformTranslator(tree, aliases).translate(), '']
+    return '\n'.join(parts)
